@@ -39,13 +39,27 @@ class Recorder:
         return self.orcs[min(self.k, len(self.orcs) - 1)] if self.orcs else (False, False, False)
 
 
-def build_node(cfg):
+def relocalize(supv, k):
+    """ make instance k the local one of this (independent) Supvisors object """
+    from supvisors.ttypes import SupvisorsInstanceStates
+    old = supv.mapper.local_identifier
+    if old == ident(k):
+        return
+    sm = supv.state_modes
+    sm.instance_state_modes[old].instance_states = {}
+    supv.mapper.local_identifier = ident(k)
+    sm.local_state_modes.instance_states = {identifier: SupvisorsInstanceStates.STOPPED
+                                            for identifier in supv.mapper.instances}
+
+
+def build_node(cfg, local=1, now=1000):
     """ real objects for one case. cfg: dict of options """
     from supvisors.commander import Starter, Stopper
     from supvisors.statemachine import FiniteStateMachine
     from supvisors.ttypes import SynchronizationOptions, SupvisorsFailureStrategies
     import supvisors.statemachine as smod
     supv = svenv.make_supvisors()
+    relocalize(supv, local)
     o = supv.options
     o.inactivity_ticks = cfg['inactivity']
     o.auto_fence = cfg['auto_fence']
@@ -116,7 +130,7 @@ def build_node(cfg):
         real_accept()
         rec.picks[rec.k] = idx(sm.master_identifier)
     sm.accept_master = accept_master
-    svenv.CLOCK.now = 1000
+    svenv.CLOCK.now = now
     supv.fsm = FiniteStateMachine(supv)
     supv.parser = None
     rec.first = first
